@@ -671,95 +671,139 @@ def bisectPcm (ph : Phys) (serial target : Int) : Nat → Bool → Bis → Bis
               bisectPcm ph serial target fuel true { b1 with end_ := result, bisect := bs1, cur := seekCur bs1, res := 0 }
             else bisectPcm ph serial target fuel false { b1 with end_ := b1.bisect, endtime := og.gran }
 
+/-- the link table: built by `ov_open`, changed by no later call -/
+structure Tab where
+  links : Nat
+  offsets : Array Int
+  dataoffsets : Array Int
+  serialnos : Array Int
+  pcmlengths : Array Int
+  deriving Inhabited
+
+def VF.tab (vf : VF) : Tab :=
+  { links := vf.links, offsets := vf.offsets, dataoffsets := vf.dataoffsets, serialnos := vf.serialnos, pcmlengths := vf.pcmlengths }
+
 /-- everything of `ov_pcm_seek_page` that does not touch the decode state: a function of the link
     table and the target only -/
-def searchPcm (ph : Phys) (vf : VF) (link : Nat) (target : Int) : Bis :=
-  let end_ := vf.offsets[link + 1]!
-  let begin_ := vf.dataoffsets[link]!
-  let begintime := vf.pcmlengths[link * 2]!
-  let endtime := vf.pcmlengths[link * 2 + 1]! + begintime
+def searchPcm (ph : Phys) (t : Tab) (link : Nat) (target : Int) : Bis :=
+  let end_ := t.offsets[link + 1]!
+  let begin_ := t.dataoffsets[link]!
+  let begintime := t.pcmlengths[link * 2]!
+  let endtime := t.pcmlengths[link * 2 + 1]! + begintime
   let b0 : Bis := { begin_ := begin_, end_ := end_, begintime := begintime, endtime := endtime }
   let b1 : Bis :=
     if begin_ = end_ then
       let (r, og, c) := nextPage ph (seekCur begin_) 1
       if r < 0 then { b0 with err := r, cur := c, res := r } else { b0 with gotPage := true, og := og, cur := c, res := r }
     else b0
-  if b1.err ≠ 0 then b1 else bisectPcm ph vf.serialnos[link]! target (4 * ph.pages.size + 4 * (end_ / CHUNKSIZE).toNat + 64) false b1
+  if b1.err ≠ 0 then b1 else bisectPcm ph t.serialnos[link]! target (4 * ph.pages.size + 4 * (end_ / CHUNKSIZE).toNat + 64) false b1
 
-/-- load the decode machine for `link` the way both success paths of `ov_pcm_seek_page` do -/
-def selectLink (link : Nat) : M Unit := do
-  let vf ← get
-  if (link : Int) ≠ vf.current_link ∨ vf.ready < STREAMSET then
-    decodeClear
-    modify fun vf => { vf with current_link := link, current_serialno := vf.serialnos[link]!, ready := STREAMSET }
-  else restartDec
-  modify fun vf => { vf with os := vf.os.resetSerial vf.current_serialno }
+/-- what `ov_pcm_seek_page` is going to do, decided from the link table and the target alone -/
+inductive SeekPlan
+  | fail (rc : Int) (cur : Cur)                                    -- `goto seek_error` before a link was selected
+  | failSel (link : Nat) (cur : Cur) (os : OStream) (rc : Int)     -- `goto seek_error` after the link's stream state was set up
+  | land (link : Nat) (cur : Cur) (os : OStream) (po : Int)        -- success: queue and position
+  | viaRaw (link : Nat) (cur : Cur) (os : OStream) (rawpos : Int)  -- hand over to `ov_raw_seek(rawpos)`
+  deriving Inhabited
+
+/-- the packets queued from the landing page: drop those without a granule position; the first one that has one fixes the position -/
+def peekPlan (pl0 total : Int) : Nat → OStream → Option (OStream × Int) ⊕ Unit
+  | 0, _ => .inl none
+  | f + 1, os =>
+      let (res, op) := os.packetpeek
+      if res = 0 then .inr ()                                      -- nothing (left) on this page
+      else if res < 0 then .inl none                               -- a hole
+      else if op.gran ≠ -1 then
+        let g := op.gran - pl0
+        .inl (some (os, (if g < 0 then 0 else g) + total))
+      else peekPlan pl0 total f os.packetout.2.2.2
+
+/-- walk back from `result` to a page of the link that begins a packet; the raw offset to seek to, an error, or nothing found -/
+def backPlan (ph : Phys) (dataoff serial : Int) : Nat → Int → Cur → (Int × Cur) ⊕ (Option Int × Cur)
+  | 0, _, c => .inr (some FUEL, c)
+  | f + 1, result, c =>
+      if ¬ (result > dataoff) then .inr (none, c)
+      else
+        let (r2, og2, c2) := prevPage ph result (backFuel result) result
+        if r2 < 0 then .inr (some r2, c2)
+        else if og2.serial = serial ∧ (og2.gran > -1 ∨ !og2.cont) then .inl (r2, c2)
+        else backPlan ph dataoff serial f r2 c2
+
+def sumAll (t : Tab) : Int := sumLen t.pcmlengths t.links
+
+def planSeekPage (ph : Phys) (t : Tab) (pos : Int) : SeekPlan :=
+  let (linkI, total) := linkFor t.pcmlengths t.links pos
+  let link := linkI.toNat
+  let target := pos - total + t.pcmlengths[link * 2]!
+  let serial := t.serialnos[link]!
+  let b := searchPcm ph t link target
+  let verdict (cur : Cur) (os : OStream) (po : Int) : SeekPlan :=
+    if po > pos ∨ pos > sumAll t then .failSel link cur os OV_EFAULT else .land link cur os po
+  if b.err ≠ 0 then .fail b.err b.cur
+  else if b.best = -1 then
+    if b.gotPage ∧ b.begin_ = t.dataoffsets[link]! ∧ b.og.serial = serial then
+      verdict b.cur (({ serial := serial } : OStream).pagein b.og) total
+    else .fail b.res b.cur            -- `result` may hold a page offset or 0 here: not an error code
+  else
+    let (r, og, c) := nextPage ph (seekCur b.best) (-1)
+    if r < 0 then .fail r c
+    else
+      let os0 := ({ serial := serial } : OStream).pagein og
+      match peekPlan t.pcmlengths[link * 2]! total (ph.work) os0 with
+      | .inl (some (os1, po)) => verdict c os1 po
+      | .inl none => .failSel link c os0 OV_EBADPACKET
+      | .inr () =>
+          -- the packet finishing this page began on an earlier page: walk back and use raw seek
+          let osE := { os0 with q := [] }
+          match backPlan ph t.dataoffsets[link]! serial (ph.pages.size + 1) b.best c with
+          | .inl (r2, c2) => .viaRaw link c2 osE r2
+          | .inr (some rc, c2) => .failSel link c2 osE rc
+          | .inr (none, c2) => .failSel link c2 osE OV_EBADPACKET
+
+/-- load the decode machine for `link` the way both success paths of `ov_pcm_seek_page` do: a different link, or no stream
+    state left after an earlier failed seek, dumps the decoder (`_decode_clear`); otherwise it is restarted in place -/
+def selectLinkF (link : Nat) (vf : VF) : VF :=
+  let v1 : VF :=
+    if (link : Int) ≠ vf.current_link ∨ vf.ready < STREAMSET then
+      { vf with vd := none, lapped := false, current_link := link, current_serialno := vf.serialnos[link]!, ready := STREAMSET }
+    else { vf with vd := vf.vd.map (fun _ => freshDec vf), lapped := false }
+  { v1 with os := v1.os.resetSerial v1.current_serialno }
+
+def selectLink (link : Nat) : M Unit := modify (selectLinkF link)
 
 def seekError (rc : Int) : M Int := do
   modify fun vf => { vf with pcm_offset := -1 }
   decodeClear
   return rc
 
-/-- `ov_pcm_seek_page` -/
+/-- carry a seek plan out on the handle -/
+def execPlan (rawSeekF : Int → M Int) : SeekPlan → M Int
+  | .fail rc cur => do
+      setCur cur
+      seekError rc
+  | .failSel link cur os rc => do
+      setCur cur
+      selectLink link
+      modify fun vf => { vf with os := os }
+      seekError rc
+  | .land link cur os po => do
+      setCur cur
+      selectLink link
+      modify fun vf => { vf with os := os, pcm_offset := po }
+      return 0
+  | .viaRaw link cur os rawpos => do
+      setCur cur
+      selectLink link
+      modify fun vf => { vf with os := os, pcm_offset := -1 }
+      rawSeekF rawpos
+
+/-- `ov_pcm_seek_page`: validate, plan (table and target only), carry the plan out on the handle -/
 def pcmSeekPage (ph : Phys) (rawSeekF : Int → M Int) (pos : Int) : M Int := do
   let vf ← get
   if vf.ready < OPENED then return OV_EINVAL
   if !vf.seekable then return OV_ENOSEEK
   if pos < 0 ∨ pos > pcmTotal vf (-1) then return OV_EINVAL
-  let (linkI, total) := linkFor vf.pcmlengths vf.links pos
-  let link := linkI.toNat
-  let target := pos - total + vf.pcmlengths[link * 2]!
-  let b := searchPcm ph vf link target
-  setCur b.cur
-  if b.err ≠ 0 then return (← seekError b.err)
-  if b.best = -1 then
-    if b.gotPage ∧ b.begin_ = vf.dataoffsets[link]! ∧ b.og.serial = vf.serialnos[link]! then
-      modify fun vf => { vf with pcm_offset := total }
-      selectLink link
-      modify fun vf => { vf with os := vf.os.pagein b.og }
-    else return (← seekError b.res)   -- `result` may hold a page offset or 0 here: not an error code
-  else
-    let _ ← seekHelper b.best
-    modify fun vf => { vf with pcm_offset := -1 }
-    let (r, og) ← getNextPage ph (-1)
-    if r < 0 then return (← seekError r)
-    selectLink link
-    modify fun vf => { vf with os := vf.os.pagein og }
-    let rec peek (fuel : Nat) : M (Option Int) :=
-      match fuel with
-      | 0 => return some FUEL
-      | f + 1 => do
-          let vf ← get
-          let (res, op) := vf.os.packetpeek
-          if res = 0 then
-            -- the packet finishing this page began on an earlier page: walk back and use raw seek
-            let rec back (f2 : Nat) (result : Int) : M (Option Int) :=
-              match f2 with
-              | 0 => return some FUEL
-              | f2' + 1 => do
-                  if ¬ (result > vf.dataoffsets[link]!) then return none
-                  let (r2, og2) ← getPrevPage ph result
-                  if r2 < 0 then return some (← seekError r2)
-                  if og2.serial = vf.current_serialno ∧ (og2.gran > -1 ∨ !og2.cont) then
-                    return some (← rawSeekF r2)
-                  back f2' r2
-            match ← back (ph.pages.size + 1) b.best with
-            | some rc => return some rc
-            | none => return some (← seekError OV_EBADPACKET)    -- result (≥0) falls to the `<0` test only when negative
-          else if res < 0 then return some (← seekError OV_EBADPACKET)
-          else if op.gran ≠ -1 then
-            let g := op.gran - vf.pcmlengths[vf.current_link.toNat * 2]!
-            modify fun vf => { vf with pcm_offset := (if g < 0 then 0 else g) + total }
-            return none
-          else
-            modify fun vf => { vf with os := vf.os.packetout.2.2.2 }
-            peek f
-    match ← peek (ph.work) with
-    | some rc => return rc
-    | none => pure ()
-  let vf ← get
-  if vf.pcm_offset > pos ∨ pos > pcmTotal vf (-1) then return (← seekError OV_EFAULT)
-  return 0
+  execPlan rawSeekF (planSeekPage ph vf.tab pos)
 
 /-- `ov_pcm_seek` -/
 def pcmSeek (ph : Phys) (rawSeekF : Int → M Int) (pos : Int) : M Int := do
